@@ -355,6 +355,15 @@ def install_probes():
                 if not isinstance(e.data, str):
                     st.extend(e.data)
             shared = sum(1 for v in cnt.values() if v > 1)
+            try:
+                # reach probe: the shared id counter is behind an identity
+                # that occurs in the input (fresh ids would not be fresh)
+                idc = getattr(M.nodes.Node, '_Node__ID_COUNTER', None)
+                if idc is not None and cnt and getattr(idc, '_v', None) is not None:
+                    if idc._v < max(cnt):
+                        rec.count('reduplicate_with_id_counter_behind_input')
+            except Exception:
+                pass
             r = orig(exprs, *a, **k)
             d = {
                 'seq': rec.seq(),
